@@ -236,4 +236,27 @@ def tarExtract (fs : FS) (root : P) (mask : Nat) (es : List Entry) : FS × Bool 
 def zipExtract (fs : FS) (root : P) (mask : Nat) (es : List Entry) : FS × Bool :=
   extractWith (fun fs e => zipOne fs root mask e) fs es
 
+/-! ### the exported wrappers -/
+
+/-- the mask `Extract` and `ExtractArchive` pass on (both packages): `ExtractWithMask(…, dst, 0o777)` -/
+def defaultMask : Nat := 0o777
+
+/-- tar / zip `Extract(r, dst)` -/
+def tarExtractDefault (fs : FS) (root : P) (es : List Entry) : FS × Bool := tarExtract fs root defaultMask es
+def zipExtractDefault (fs : FS) (root : P) (es : List Entry) : FS × Bool := zipExtract fs root defaultMask es
+
+/-- tar / zip `ExtractArchiveWithMask(src, dst, mask)`: `opened = false` when `os.Open` / `zip.OpenReader` fails (no
+    such file; for zip also a file without a central directory) — an error, nothing else happens; otherwise the
+    reader form runs on the file's entries and the file is closed -/
+def tarExtractArchiveWithMask (opened : Bool) (fs : FS) (root : P) (mask : Nat) (es : List Entry) : FS × Bool :=
+  if opened then tarExtract fs root mask es else (fs, false)
+def zipExtractArchiveWithMask (opened : Bool) (fs : FS) (root : P) (mask : Nat) (es : List Entry) : FS × Bool :=
+  if opened then zipExtract fs root mask es else (fs, false)
+
+/-- tar / zip `ExtractArchive(src, dst)` -/
+def tarExtractArchive (opened : Bool) (fs : FS) (root : P) (es : List Entry) : FS × Bool :=
+  tarExtractArchiveWithMask opened fs root defaultMask es
+def zipExtractArchive (opened : Bool) (fs : FS) (root : P) (es : List Entry) : FS × Bool :=
+  zipExtractArchiveWithMask opened fs root defaultMask es
+
 end Ex
